@@ -7,4 +7,8 @@ timeout 300 /venv/bin/python demo.py >/tmp/$SID.with.log 2>&1; W=$?
 git apply -R /tmp/$SID.patch; timeout 300 /venv/bin/python demo.py >/tmp/$SID.without.log 2>&1; WO=$?; git apply /tmp/$SID.patch
 echo "demo with change: exit $W ; without: exit $WO"
 D=/verif/seeded/$SID; mkdir -p $D; cp /tmp/$SID.patch $D/patch.diff; cp demo.py $D/demo.py
-/verif/tools/seed_eval.sh $D/patch.diff 2>&1 | grep -A5 -E "baseline|exit=[12]" | grep -v '^--$' | cut -c1-240
+/verif/tools/seed_eval.sh $D/patch.diff > /tmp/$SID.eval.log 2>&1
+grep -A1 -- "--- baseline" /tmp/$SID.eval.log | tail -1
+echo "exits: $(grep -E '^--- C[0-9]+ exit=' /tmp/$SID.eval.log | sed 's/--- //; s/ exit=/:/' | grep -v ':0' | tr '\n' ' ')"
+grep -E "^  C[0-9]+\.R|ANALYSIS-ERROR" /tmp/$SID.eval.log | cut -c1-300
+rm -f /tmp/$SID.patch /tmp/$SID.with.log /tmp/$SID.without.log
